@@ -5,11 +5,11 @@ From Dae Require Import C06_Spec C06_Model.
 Import ListNotations.
 Open Scope N_scope.
 
-Definition C06_tls_roundtrip_open : Prop :=
+Definition C06_tls_roundtrip_stmt : Prop :=
   forall (h : hello) (slack : bytes),
     wf_hello h = true -> extract_sni_bytes (enc_handshake h) slack = raw_name_of h.
 
-Definition C06_tls_stream_roundtrip_open : Prop :=
+Definition C06_tls_stream_roundtrip_stmt : Prop :=
   forall (h : hello) (m : N) (rest slack : bytes),
     wf_hello h = true -> hello_names_wf h = true -> blen (enc_handshake h) < 65536 ->
     sniff_group_tcp (enc_record m h ++ rest) slack = name_of h.
@@ -18,7 +18,7 @@ Definition benign (e : rd) : bool := match rd_status e with RsOk | RsEof => true
 
 Definition is_prefix (p l : bytes) : bool := bytes_eqb p (firstn (length p) l).
 
-Definition C06_chunking_invariant_open : Prop :=
+Definition C06_chunking_invariant_stmt : Prop :=
   forall (h : hello) (m : N) (script : list rd),
     wf_hello h = true -> hello_names_wf h = true -> blen (enc_handshake h) < 65536 ->
     forallb benign script = true ->
@@ -27,41 +27,36 @@ Definition C06_chunking_invariant_open : Prop :=
     fst (fst (sniff_tcp script)) = name_of h
     /\ sniff_whole (concat (map rd_data script)) = name_of h.
 
-Definition C06_only_carried_name_open : Prop :=
+Definition C06_only_carried_name_stmt : Prop :=
   forall (data slack n : bytes),
     extract_sni_bytes data slack = Found n ->
     exists p b1 b2, 3 <= p /\ p + (b1 * 256 + b2) <= blen data
                     /\ sub data (p - 3) p = [0; b1; b2]
                     /\ n = strip_dot (sub data p (p + (b1 * 256 + b2))).
 
-Definition C06_tls_no_oob_full : Prop := forall data : bytes, extract_sni_strict data <> Oob.
-
-Definition C06_tls_no_oob_refuted_stmt : Prop := exists data : bytes, extract_sni_strict data = Oob.
-
-Definition C06_tls_no_oob_partial_open : Prop :=
+Definition C06_tls_no_oob_stmt : Prop :=
   forall (data slack : bytes),
-    (slack <> [] -> extract_sni_bytes data slack <> Oob)
-    /\ (extract_sni_strict data = Oob -> slack <> [] -> extract_sni_bytes data slack = NotApplicable)
-    /\ (extract_sni_strict data <> Oob -> extract_sni_bytes data slack = extract_sni_strict data)
-    /\ extract_sni_bytes data slack <> OutOfFuel.
+    extract_sni_strict data <> Oob
+    /\ extract_sni_bytes data slack = extract_sni_strict data
+    /\ extract_sni_strict data <> OutOfFuel.
 
-Definition C06_linear_no_oob_open : Prop :=
+Definition C06_linear_no_oob_stmt : Prop :=
   forall o : list frag, extract_sni_linear o <> Oob.
 
-Definition C06_http_roundtrip_open : Prop :=
+Definition C06_http_roundtrip_stmt : Prop :=
   forall (q : http_head) (body slack : bytes),
     wf_head q = true -> sniff_group_tcp (enc_head q ++ body) slack = host_of q.
 
 Definition reassemble_frags (offsets new : list frag) : list frag := merge_frags (sort_frags (offsets ++ new)).
 
-Definition C06_crypto_reassembly_open : Prop :=
+Definition C06_crypto_reassembly_stmt : Prop :=
   forall (s : bytes) (packets : list (list frag)),
     s <> [] ->
     forallb (fragmentation_of s) packets = true ->
     covers_all s (concat packets) = true ->
     fold_left reassemble_frags packets [] = [(0, s)].
 
-Definition C06_quic_roundtrip_open : Prop :=
+Definition C06_quic_roundtrip_stmt : Prop :=
   forall (h : hello) (packets : list (list frag)),
     wf_hello h = true ->
     forallb (fragmentation_of (enc_handshake h)) packets = true ->
@@ -79,21 +74,19 @@ Definition C06_udp_data_exact_stmt : Prop :=
     u_data (append_data st d) = u_data st ++ [d]
     /\ (let '(r, st', _) := sniff_udp st oracle in u_data st' = u_data st /\ u_buf st' = u_buf st).
 
-Definition C06_usable_after_timeout_full : Prop :=
+Definition C06_usable_after_timeout_stmt : Prop :=
   forall (script : list rd) (p : N),
     let '(r, st, rest) := sniff_tcp script in
-    blen (s_buf st) <= p -> relay_read_all p st rest = relay_prefix_copy st rest.
+    r <> IoError -> relay_read_all p st rest = relay_prefix_copy st rest.
 
-Definition C06_usable_after_timeout_refuted_stmt : Prop :=
-  exists (script : list rd) (p : N),
-    let '(r, st, rest) := sniff_tcp script in
-    r = TimedOut /\ blen (s_buf st) <= p /\ relay_read_all p st rest <> relay_prefix_copy st rest.
-
-Definition C06_usable_after_timeout_partial_stmt : Prop :=
-  forall (script : list rd) (p : N),
-    let '(r, st, rest) := sniff_tcp script in
-    r <> TimedOut -> r <> IoError ->
-    relay_read_all p st rest = relay_prefix_copy st rest.
+Definition C06_usable_after_timeout_nonvacuous_stmt : Prop :=
+  let script := [ {| rd_window := 4096; rd_data := [22; 3; 1; 0; 100; 1; 0]; rd_status := RsOk |};
+                  {| rd_window := 4089; rd_data := []; rd_status := RsTimeout |};
+                  {| rd_window := 32768; rd_data := [1; 2]; rd_status := RsOk |};
+                  {| rd_window := 32768; rd_data := []; rd_status := RsEof |} ] in
+  fst (fst (sniff_tcp script)) = TimedOut
+  /\ (let '(r, st, rest) := sniff_tcp script in relay_read_all 32768 st rest)
+     = ([22; 3; 1; 0; 100; 1; 0; 1; 2], RsEof).
 
 Definition C06_nonvacuous_stmt : Prop :=
   let h := {| h_minor := 3; h_random := repeat 7 32%nat; h_session := [1; 2; 3]; h_suites := [19; 1; 19; 2];
